@@ -11,7 +11,7 @@ import shutil
 import vlib
 from vlib import Check, Scratch
 from ddpmodel import *
-from ddpmodel.gen import StmtGen
+from ddpmodel.gen import StmtGen, wrap_in_function
 from ddpmodel import reduce as reducer
 from checks import progcheck
 
@@ -61,7 +61,7 @@ def run(tier):
     vlib.ensure_build(asan=False)
     chk = Check(PID, tier)
     ngen, ngold = (36, 14) if tier == "quick" else (900, 400)
-    chk.rule = ("sources: seeded random statement programs of ddpmodel (self-contained print prelude, so all 12 configurations {O0,O1,O2} x {modules linked?} x "
+    chk.rule = ("sources: seeded random statement programs of ddpmodel (a third of them with local variables only) and C08's copy/alias programs (self-contained print prelude, so all 12 configurations {O0,O1,O2} x {modules linked?} x "
                 "{list definitions linked?} apply) extended with model-free pow/root/log observations, plus upstream's programs under tests/testdata and examples "
                 "that compile here (6 configurations, imports need module linking). Distinct by source hash; non-trivial = at least two configurations produced an "
                 "executable. Oracle: identical (exit status, stdout, first stderr line up to the first digit) across configurations.")
@@ -89,8 +89,16 @@ def run(tier):
             kind, x = job
             if kind == "gen":
                 r = random.Random("%d/%s/%d" % (chk.seed, PID, x))
-                g = StmtGen(r)
-                prog = g.build(n_items=r.randint(10, 22), d=2, nest=r.randint(1, 3), n_funcs=r.randint(0, 2))
+                if x % 3 == 2:
+                    # copy/alias cases of C08 (local holders, by-value + Referenz arguments, callee forms): the code -O 2 treats specially
+                    from checks import c08
+                    prog = c08.build(r).prog
+                else:
+                    g = StmtGen(r)
+                    local = r.random() < 0.35       # every variable a local of one function
+                    prog = g.build(n_items=r.randint(10, 22), d=2, nest=r.randint(1, 3), n_funcs=0 if local else r.randint(0, 2))
+                    if local:
+                        wrap_in_function(prog)
                 prog.items += numeric_extras(r)
                 d = os.path.join(sc.path, "g%d" % x)
                 os.makedirs(d)
